@@ -83,6 +83,16 @@ def opsSolver : List (String × Handler) := [
   ("sv_mle_running", do
     let a2 ← pRat; let num ← pRat; let b2 ← pRat; pEnd
     pure (showRat (Solver.mleRunning a2 num b2))),
+  ("sv_fixed_grid_smoothed", do
+    -- strategy n scale count st_1 … st_count (time order; the last one is the final state) -> count+1 marginals in time order
+    let s ← pStrategy; let n ← pNat; let scale ← pRat; let cnt ← pNat
+    let mut sts : List (SolState n Q) := []
+    for _ in [0:cnt] do
+      sts := sts ++ [← pSolState n]
+    pEnd
+    match sts.getLast? with
+    | none => throw "no states"
+    | some last => pure (" ".intercalate ((solveFixedGridSmoothed s scale sts last).map showGauss))),
   ("sv_finalize", do
     -- n scale count post1 bw_1 … bw_count (last first) -> count+1 marginals (terminal first)
     let n ← pNat; let scale ← pRat; let cnt ← pNat
